@@ -10,6 +10,7 @@ double verif_inst(std::vector<int>& v, const std::vector<int>& cv, std::vector<i
 {
   double s = RandomTools::randGaussian(0., 1.) + RandomTools::randGamma(1.) + RandomTools::randGamma(1., 1.) + RandomTools::randExponential(1.);
   s += RandomTools::pickOne(v, true) + RandomTools::pickOne(cv);
+  { const std::vector<double>& cw = w; s += RandomTools::pickOne(v, w, false) + RandomTools::pickOne(cv, cw); }
   RandomTools::getSample(cv, out, false);
   s += (double)RandomTools::pickFromCumSum(w) + (double)RandomTools::giveIntRandomNumberBetweenZeroAndEntry<size_t>(n) + RandomTools::giveRandomNumberBetweenZeroAndEntry(1.);
   return s;
@@ -29,7 +30,7 @@ CFG = dict(
     rename={('ctor', 'std::normal_distribution<double>', 2): 'Dist__normal', ('ctor', 'std::gamma_distribution<double>', 2): 'Dist__gamma',
             ('ctor', 'std::exponential_distribution<double>', 1): 'Dist__exponential', ('ctor', 'std::uniform_real_distribution<double>', 2): 'Dist__uniform',
             ('ctor', 'std::uniform_int_distribution<unsigned long>', 2): 'DistU__uniform'},
-    free={('sum', 1): 'verif_vsum', ('sqrt', 1): 'verif_sqrt', ('iota', 3): 'verif_iota', ('shuffle', 3): 'verif_shuffle',
+    free={('cumSum', 1): 'verif_cumsum', ('sum', 1): 'verif_vsum', ('sqrt', 1): 'verif_sqrt', ('iota', 3): 'verif_iota', ('shuffle', 3): 'verif_shuffle',
           ('giveRandomNumberBetweenZeroAndEntry', 1): 'RandomTools__giveRandomNumberBetweenZeroAndEntry',
           ('giveIntRandomNumberBetweenZeroAndEntry', 1): 'RandomTools__giveIntRandom',
           ('randGaussian', 2): 'RandomTools__randGaussian',
@@ -81,7 +82,10 @@ static inline void Dist__uniform(Dist *d, double a, double b) { d->kind = DIST_u
 static inline void DistU__uniform(DistU *d, unsigned long a, unsigned long b) { d->a = a; d->b = b; }
 double in_r;     /* the last variate drawn from a continuous distribution object (named so that counterexample traces show it) */
 static inline double Dist__op_call(Dist *d, Rng *g) { verif_dist_kind = d->kind; verif_dist_p1 = d->p1; verif_dist_p2 = d->p2; double r = nondet_double();
-  if (d->kind == DIST_uniform) __CPROVER_assume(r >= d->p1 && (r < d->p2 || d->p1 == d->p2));   /* TRUSTED: uniform_real_distribution draws from [a, b) */
+  if (d->kind == DIST_uniform) { __CPROVER_assume(r >= d->p1 && (r < d->p2 || d->p1 == d->p2));   /* TRUSTED: uniform_real_distribution draws from [a, b) */
+    /* on [0, 1) libstdc++ returns (double)N * 2^-64 for the 64-bit N made of two outputs of the twister (1 - 2^-53 when that rounds to 1): exactly these
+       values are drawn, so that every counterexample can be replayed on the real generator */
+    if (d->p1 == 0.0 && d->p2 == 1.0) { unsigned long N = nondet_ulong(); r = (double)N * 0x1p-64; if (r >= 1.0) r = 0x1.fffffffffffffp-1; } }
   in_r = r; return r; }
 static inline unsigned long DistU__op_call(DistU *d, Rng *g) { unsigned long r = nondet_ulong(); __CPROVER_assume(r >= d->a && r <= d->b);   /* TRUSTED: uniform_int_distribution draws from [a, b] */
   return r; }
@@ -90,10 +94,19 @@ static inline double verif_sqrt(double x) { return __CPROVER_uninterpreted_sqrt(
 '''
 PRELUDE = r'''
 #ifdef VERIF_MODE_BOUNDED
+/* VectorTools::cumSum (std::partial_sum on a copy) and vector /= scalar: executable models */
+static inline Vec_double verif_cumsum(const Vec_double *v) { Vec_double r; Vec_double__ctor_copy(&r, v); double s = 0; for (unsigned long i = 0; i < VEC_BCAP; ++i) if (i < r.n) { if (i == 0) s = r.d[0]; else s = s + r.d[i]; r.d[i] = s; } return r; }
+#define op_diveq__Vec_double__double verif_vdiv
+/* the quotient is any function of its operands that satisfies x / x == 1 and 0 / x == 0 for finite x > 0 (true of IEEE division): the picks only depend on that
+   fact and on equal operands giving equal quotients; exact division made these runs last 20 min for two elements */
+static inline double verif_quot(double a, double c) { double q = verif_uf_div(a, c); if (c > 0 && c <= 1.7976931348623157e308) { if (a == c) __CPROVER_assume(q == 1.0); if (a == 0.0) __CPROVER_assume(q == 0.0); } return q; }
+static inline void verif_vdiv(Vec_double *v, const double *c) { for (unsigned long i = 0; i < VEC_BCAP; ++i) if (i < v->n) v->d[i] = verif_quot(v->d[i], *c); }
 /* VectorTools::sum: left fold from 0 */
 static inline double verif_vsum(const Vec_double *v) { double s = 0; for (unsigned long i = 0; i < VEC_BCAP; ++i) if (i < v->n) s += v->d[i]; return s; }
 #else
 double verif_vsum(const Vec_double *v);
+Vec_double verif_cumsum(const Vec_double *v);
+void verif_vdiv(Vec_double *v, const double *c);
 #endif
 #define VOBJ(v) (__CPROVER_is_fresh(v, sizeof(*(v))) && VEC_FRESH(v))
 #ifndef VERIF_MODE_BOUNDED
@@ -157,6 +170,8 @@ FUNCS = [
 FUNCS += [
     # body only (bounded runs with machine floating point: the rounding of the cumulated probabilities is the point)
     dict(cname='RandomTools__randMultinomial', qname=RT + 'randMultinomial', uf_ops={}),
+    dict(cname='RandomTools__pickOne_w', qname=RT + 'pickOne', targs=['int'], sig='int (std::vector<int> &, std::vector<double> &, bool)', uf_ops={}),
+    dict(cname='RandomTools__pickOne_cw', qname=RT + 'pickOne', targs=['int'], sig='int (const std::vector<int> &, const std::vector<double> &)', uf_ops={}),
 ]
 LEMMAS = [
     dict(id='l_GaussianDiscreteDistribution_randC', kind='lemma', entry='h', replace=['RandomTools__randGaussian'], bodies=['GaussianDiscreteDistribution__randC'],
@@ -170,12 +185,12 @@ void h(void) { GaussianDiscreteDistribution g; g.mu_ = nondet_double(); g.sigma_
   __CPROVER_assert(0, "verif_canary reachable after call"); }
 '''),
 ]
-REPLAY = {'re:^b_randMultinomial': dict(adapter='c18_multinomial.cpp'), 'p_RandomTools__randExponential': dict(adapter='c18_conv.cpp'), 'p_RandomTools__randGamma2': dict(adapter='c18_conv.cpp'),
+REPLAY = {'re:^b_(randMultinomial|weightedPick)': dict(adapter='c18_multinomial.cpp'), 'p_RandomTools__randExponential': dict(adapter='c18_conv.cpp'), 'p_RandomTools__randGamma2': dict(adapter='c18_conv.cpp'),
           'l_GaussianDiscreteDistribution_randC': dict(adapter='c18_gauss.cpp')}
 TRUSTED = ['the laws of libstdc++\'s <random> distributions and of the Mersenne twister (assumed; only the parameters handed to them are decided)',
            'std::iota / std::shuffle by contract (shuffle permutes in place)', 'sqrt uninterpreted']
 ASSUMPTIONS = ['weights vectors of length >= 1 for pickFromCumSum (quantifier of C18)']
-NOT_DECIDED = ['goodness of fit of any sampler, seeding / reproducibility of the stream, getPValue in [0,1], weighted picks, randBeta (quantile of a uniform draw), contingency tables']
+NOT_DECIDED = ['goodness of fit of any sampler, seeding / reproducibility of the stream, getPValue in [0,1], frequencies of weighted picks, weighted getSample, randBeta (quantile of a uniform draw), contingency tables']
 
 # ---- bounded: multiset facts of picks and samples ------------------------------------------------------------------------
 PRELUDE += r'''
@@ -225,8 +240,43 @@ void h(void) { Vec_double probs; probs.d = (double*)verif_new_array(VEC_BCAP, si
   __CPROVER_assert(sample.d[0] >= K || in_p[sample.d[0]] > 0, "a class of probability zero is never drawn");
   __CPROVER_assert(0, "verif_canary reachable after call"); }
 '''
+H_WPICK = r'''
+#define FOR(i, n) for (unsigned long i = 0; i < (unsigned long)(n); ++i)
+int in_v[NIN + 1]; double in_w[NIN + 1];
+void h(void) { Vec_int v; Vec_double w; v.d = (int*)verif_new_array(VEC_BCAP, sizeof(int)); v.n = NIN; w.d = (double*)verif_new_array(VEC_BCAP, sizeof(double)); w.n = NIN; _Bool some = 0;
+  FOR(i, NIN) { in_v[i] = nondet_int(); __CPROVER_assume(in_v[i] >= 0 && in_v[i] <= 2); v.d[i] = in_v[i];
+    in_w[i] = nondet_double(); __CPROVER_assume(in_w[i] == 0.0 || (in_w[i] >= 0.001 && in_w[i] <= 1000.0)); if (in_w[i] > 0) some = 1; w.d[i] = in_w[i]; }
+  __CPROVER_assume(some || NIN == 0); verif_exc = 0;
+#if MODE == 2
+  int e = RandomTools__pickOne_cw(&v, &w);
+#else
+  int e = RandomTools__pickOne_w(&v, &w, MODE);
+#endif
+  if (NIN == 0) __CPROVER_assert(verif_exc == EXC_EmptyVectorException, "emptiness is reported by exception");
+  else { __CPROVER_assert(verif_exc == 0, "a weighted pick from a non-empty source does not raise");
+    /* the pick is an element whose weight is not null */
+    _Bool ok = 0; FOR(i, NIN) if (in_v[i] == e && in_w[i] > 0) ok = 1;
+    __CPROVER_assert(ok, "a weighted pick is a source element of non-null weight");
+#if MODE == 0
+    __CPROVER_assert(v.n == NIN - 1 && w.n == NIN - 1, "without replacement exactly one element and its weight leave");
+    /* some position p held the pick: the last pair moved there, every other pair stays */
+    _Bool paired = 0; FOR(p, NIN) if (in_v[p] == e && in_w[p] > 0) { _Bool same = 1; FOR(i, NIN - 1) { unsigned long src = (i == p ? NIN - 1 : i); if (v.d[i] != in_v[src] || w.d[i] != in_w[src]) same = 0; } if (same) paired = 1; }
+    __CPROVER_assert(paired, "without replacement the remaining elements keep their own weights");
+#else
+    __CPROVER_assert(v.n == NIN && w.n == NIN, "with replacement the source keeps its size"); FOR(i, NIN) __CPROVER_assert(v.d[i] == in_v[i] && w.d[i] == in_w[i], "with replacement source and weights are unchanged");
+#endif
+  }
+  __CPROVER_assert(0, "verif_canary reachable after call"); }
+'''
 def generate_jobs(unit, tier):
     jobs = []
+    wmax = 4 if tier == 'thorough' else 3
+    for nin in range(0, wmax + 1):
+        for mode, what in ((0, 'without replacement'), (1, 'with replacement'), (2, 'const overload')):
+            jobs.append(dict(id='b_weightedPick_n%d_m%d' % (nin, mode), kind='bounded', mode='bounded', entry='h', bodies=['RandomTools__giveRandomNumberBetweenZeroAndEntry', 'RandomTools__pickOne_w', 'RandomTools__pickOne_cw'], harness=H_WPICK,
+                             unwind=nin + 3, timeout=1500, defs='#define NIN %d\n#define MODE %d\n#define VEC_BCAP %d\n' % (nin, mode, nin + 1),
+                             bound='%d elements in {0,1,2}, each weight 0 or in [0.001, 1000], one weight not null, %s; machine floating point; the uniform variate is any double of [0, 1)' % (nin, what),
+                             doc='weighted pickOne: an element of non-null weight; without replacement element and weight leave together'))
     for k in (1, 2, 3) + ((4,) if tier == 'thorough' else ()):
         jobs.append(dict(id='b_randMultinomial_k%d' % k, kind='bounded', mode='bounded', entry='h', bodies=['RandomTools__giveRandomNumberBetweenZeroAndEntry', 'RandomTools__randMultinomial'], harness=H_MULTI,
                          unwind=k + 3, timeout=1500, defs='#define K %d\n#define VEC_BCAP %d\n' % (k, k + 1),
